@@ -1,5 +1,5 @@
 """The table MANIFEST.json is generated from (python3 drivers/manifest.py)."""
-HOOK_COMMITS = []
+HOOK_COMMITS = ["62117ca"]
 CHECKS = {}
 NOT_APPLICABLE = {}
 
@@ -130,3 +130,19 @@ claim("C06", "model_checking", "TLA+ call-graph model with reachability fixed po
       "effect return the same values before and after on the embedded engine (and the values the spec computes).",
       "Trusted: TLC, the renderer, wazero (interpreter) as executor. n = 3 (quick, 17k modules) / 4 (thorough). Not driven: re-exported imports, standalone export fields, ref.func.",
       "DESIGN.md section 4 C06")
+
+claim("C28", "model_checking", "TLA+ spec of the compile pipeline's shared current-module global (TLC: safety, deadlock freedom, liveness of the locked design) + gate-controlled replay of TLC interleavings on the real compiler through blocking hooks + TLC validation of stress logs",
+      "ApiConc.tla: calls as processes with Load / SetCurrent / Use* / Finish around the process-global wir.currentModule, with and without the compile lock. TLC proves the locked "
+      "design (3 calls) returns the sequential result for every call, never lets a call touch another call's module, cannot deadlock, and finishes under weak fairness. The "
+      "interleaving prefixes of the UNLOCKED variant are forced on the real compiler: verif-tagged hooks at every read/write of the global block each goroutine until the harness "
+      "releases it in TLC's order; a step the lock forbids is observed as blocked, any feasible interleaving must still give the sequential WAT/wasm. Free-running stress "
+      "(8-16 goroutines x BuildFile/RunCode/FormatCode/GetCodeSyntax) logs every hook event under the hook's mutex and TLC (ApiConcTrace) checks from the event order that no "
+      "use ever saw a foreign module and every call returned its sequential result. A crash of the child process is a violation.",
+      "Trusted: TLC, goroutine identification by runtime.Stack, the 150 ms settle window that decides 'blocked' (a slow machine can only make a feasible step look blocked, "
+      "never the reverse). Shared state other than wir.currentModule is only covered by the output comparison and the crash oracle.",
+      "DESIGN.md section 4 C28")
+claim("C27", "exploration", "TLC determinism monitor over builds recorded in one process and in fresh processes",
+      "Determinism.tla memoises the first (WAT hash, wasm hash, main function) observed per program and rejects any later different observation; the observations are 3-6 builds of "
+      "each of six programs in each of 5-12 fresh processes (new map-iteration and hash seeds).",
+      "The schedule quantifier is sampled, not enumerated; the TLA+ content is a monitor. A nondeterminism that needs an unusual program shape is not reached.",
+      "DESIGN.md section 4 C27")
